@@ -109,6 +109,8 @@ structure Indexer where
   data : List Row
   /-- `indexer.phase` of a single-phase indexer (unused for a `MaterialIndexer`) -/
   phase : Char := 'l'
+  /-- a `SplitIndexer` (single row, no phase, groups without composition) -/
+  split : Bool := false
   deriving Repr, Inhabited, DecidableEq
 
 /-- `IDs` part of the key (what `__setitem__` passes on as `key`). -/
@@ -130,9 +132,12 @@ def resolveIx (s : CState) (mc : MCache) (phases : Option (List Char)) (key : Py
       | (.ok ix, s') => (.ok (.sub (some 0) ix, k), s', mc)
       | (.error e, s') => (.error e, s', mc)
   | some ps =>
-    match lookupM s mc ps (normM key) with
-    | (.ok v, s', mc') => (.ok (v, idsPart (normM key)), s', mc')
-    | (.error e, s', mc') => (.error e, s', mc')
+    match normM key with
+    | .error e => (.error e, s, mc)
+    | .ok k =>
+      match lookupM s mc ps k with
+      | (.ok v, s', mc') => (.ok (v, idsPart k), s', mc')
+      | (.error e, s', mc') => (.error e, s', mc')
 
 /-- The same without any memo: the specification. -/
 def resolveIxP (c : Chem) (phases : Option (List Char)) (key : PyKey) : Except Err (MIx × HKey) :=
@@ -145,9 +150,12 @@ def resolveIxP (c : Chem) (phases : Option (List Char)) (key : PyKey) : Except E
       | .ok ix => .ok (.sub (some 0) ix, k)
       | .error e => .error e
   | some ps =>
-    match resolveM c ps (normM key) with
-    | .ok v => .ok (v, idsPart (normM key))
+    match normM key with
     | .error e => .error e
+    | .ok k =>
+      match resolveM c ps k with
+      | .ok v => .ok (v, idsPart k)
+      | .error e => .error e
 
 def nonzeroPositions (row : Row) : List Nat :=
   (List.range row.length).filter fun i => getAt row i ≠ 0
@@ -201,9 +209,17 @@ def World.redefine (w : World) (c : Nat) (s' : CState) (drop : Bool) : World :=
 inductive Op where
   | compile (specs : List Spec)
   | alias (c : Nat) (id alias : String)
-  | group (c : Nat) (name : String) (ids : List String) (comp : Option (List Rat))
+  | group (c : Nat) (name : String) (ids : List String) (comp : Option (List Rat)) (wt : Bool)
+  /-- `chemicals.array(IDs, data)` (`split = false`) / `chemicals.split(IDs, data)` -/
+  | array (c : Nat) (split : Bool) (key : PyKey) (d : Data)
+  /-- `indexer.by_mass()[key]` -/
+  | getMass (ix : Nat) (key : PyKey)
+  /-- `indexer.by_mass()[key] = data` -/
+  | setMass (ix : Nat) (key : PyKey) (d : Data)
   | newChemIx (c : Nat) (phase : Char)
   | newMatIx (c : Nat) (phases : List Char)
+  /-- `SplitIndexer.blank(chemicals)` -/
+  | newSplitIx (c : Nat)
   | get (ix : Nat) (key : PyKey)
   | set (ix : Nat) (key : PyKey) (d : Data)
   /-- `left.copy_like(right)` -/
@@ -224,13 +240,11 @@ inductive Out where
   | err (e : Err)
   deriving Repr, Inhabited, DecidableEq
 
-def newChemIndexer (c : Nat) (size : Nat) (ph : Char) : Indexer := ⟨c, none, [List.replicate size 0], ph⟩
+def newChemIndexer (c : Nat) (size : Nat) (ph : Char) : Indexer := ⟨c, none, [List.replicate size 0], ph, false⟩
 def newMatIndexer (c : Nat) (size : Nat) (pt : List Char) : Indexer :=
-  ⟨c, some pt, List.replicate pt.length (List.replicate size 0), 'l'⟩
+  ⟨c, some pt, List.replicate pt.length (List.replicate size 0), 'l', false⟩
 
 /-! ### Transfers between indexers of the same chemicals object: phases may grow in place -/
-
-def zeroRow (size : Nat) : Row := List.replicate size 0
 
 /-- `phase_tuple(set(phases) | set(new))` -/
 def unionPhases (ps new : List Char) : List Char := validPhases.filter fun p => p ∈ ps ∨ p ∈ new
@@ -302,31 +316,119 @@ def transferSame (size : Nat) (il ir : Indexer) (add self : Bool) : Option Index
                        data := src.foldl (fun d (x : Char × Row) => setInto ps' d x.1 x.2)
                                  (ps'.map fun _ => zeroRow size) }
 
+/-- `idata.nonzero_keys()` of the source (ascending; `index_overlap` is order-insensitive). -/
+def unionNonzero (rows : List Row) : List Nat :=
+  (List.range (rows.headD []).length).filter fun i => rows.any fun r => getAt r i ≠ 0
+
+/-- A source row carried over to the receiver's chemicals: `x[left_index] (+)= row[right_index]`. -/
+def mapRow (size : Nat) (lix rix : List Nat) (row : Row) : Row :=
+  writeZip (zeroRow size) lix (rix.map (getAt row))
+
+def mapIndexer (size : Nat) (lix rix : List Nat) (ir : Indexer) : Indexer :=
+  { ir with data := ir.data.map (mapRow size lix rix) }
+
+/-- A single-phase receiver mixes a multi-phase source in as the sum of its rows
+(`sc_data.extend(idata.rows)` / `idata.sum(0)`); it cannot `copy_like` one (outside the model). -/
+def flatSource (il ir : Indexer) (add : Bool) : Option Indexer :=
+  match il.phases, ir.phases with
+  | none, some _ => if add then some { ir with phases := none, data := [colSums ir.data], phase := il.phase } else none
+  | _, _ => some ir
+
+/-- The receiver after a transfer whose `index_overlap` raised: phases already grown, `copy_like`
+has already emptied it, nothing has been carried over. -/
+def growOnly (size : Nat) (il ir : Indexer) (add : Bool) : Option Indexer :=
+  transferSame size il { ir with data := ir.data.map fun _ => zeroRow size } add false
+
 /-- `copy_like` / `mix_from` between two indexers: within one chemicals object through
-`transferSame`, across two (single-phase only) through `index_overlap`. -/
+`transferSame`, across two through `index_overlap` (whose memo entry lands in the receiver's
+chemicals memo) and then the same phase logic on the carried-over rows. -/
 def World.transfer (w : World) (l r : Nat) (add : Bool) : World × Out :=
   match w.ixs[l]?, w.ixs[r]? with
-  | some il, some ir =>
-    match w.chems[il.chem]?, w.chems[ir.chem]? with
+  | some il, some ir0 =>
+    match w.chems[il.chem]?, w.chems[ir0.chem]? with
     | some sl, some sr =>
-      if il.chem = ir.chem then
-        match transferSame sl.chem.size il ir add (l == r) with
-        | some il' => (w.putIx l il', .state il')
-        | none => (w, .err .typeError)
-      else
-        match il.phases, ir.phases, il.data, ir.data with
-        | none, none, [rowL], [rowR] =>
-          let rix := nonzeroPositions rowR
-          let (res, sl') := sl.overlap (rix.map fun i => sr.cas.getD i "")
-          let w' := { w with chems := w.chems.set il.chem sl' }
-          match transferRow rowL rowR add rix res with
-          | (row', some e) => (w'.putIx l { il with data := [row'] }, .err e)
-          | (row', none) =>
-            (w'.putIx l { il with data := [row'], phase := if add then il.phase else ir.phase },
-             .state { il with data := [row'], phase := if add then il.phase else ir.phase })
-        | _, _, _, _ => (w, .err .typeError)
+      match flatSource il ir0 add with
+      | none => (w, .err .typeError)
+      | some ir =>
+        if il.chem = ir.chem then
+          match transferSame sl.chem.size il ir add (l == r) with
+          | some il' => (w.putIx l il', .state il')
+          | none => (w, .err .typeError)
+        else
+          match il.phases with
+          | none =>
+            match ir.phases, il.data, ir.data with
+            | none, [rowL], [rowR] =>
+              let rix := nonzeroPositions rowR
+              let (res, sl') := sl.overlap (rix.map fun i => sr.cas.getD i "")
+              let w' := { w with chems := w.chems.set il.chem sl' }
+              match transferRow rowL rowR add rix res with
+              | (row', some e) => (w'.putIx l { il with data := [row'] }, .err e)
+              | (row', none) =>
+                (w'.putIx l { il with data := [row'], phase := if add then il.phase else ir.phase },
+                 .state { il with data := [row'], phase := if add then il.phase else ir.phase })
+            | _, _, _ => (w, .err .typeError)
+          | some _ =>
+            let rix := unionNonzero ir.data
+            let (res, sl') := sl.overlap (rix.map fun i => sr.cas.getD i "")
+            let w' := { w with chems := w.chems.set il.chem sl' }
+            match res with
+            | .error e =>
+              match growOnly sl.chem.size il ir add with
+              | some il' => (w'.putIx l il', .err e)
+              | none => (w', .err e)
+            | .ok lix =>
+              match transferSame sl.chem.size il (mapIndexer sl.chem.size lix rix ir) add false with
+              | some il' => (w'.putIx l il', .state il')
+              | none => (w', .err .typeError)
     | _, _ => (w, .err .indexError)
   | _, _ => (w, .err .indexError)
+
+/-- `indexer[key]` after key resolution. -/
+def readIx (ix : Indexer) (v : MIx) : Val :=
+  if ix.split then
+    match v with
+    | .sub _ i => getSplit (ix.data.getD 0 []) i
+    | _ => .vec []
+  else getM ix.data v
+
+/-- `indexer[key] = data` after key resolution: the data afterwards, and the answer. -/
+def writeIx (c : Chem) (ix : Indexer) (v : MIx) (ids : HKey) (d : Data) : List Row × Out :=
+  if ix.split then
+    match v with
+    | .sub _ i =>
+      match setSplit (ix.data.getD 0 []) i d with
+      | (row', none) => ([row'], .data [row'])
+      | (row', some e) => ([row'], .err e)
+    | _ => (ix.data, .err .typeError)
+  else
+    match setM c ix.data v ids d with
+    | .error e => (setMFail c ix.data v ids d, .err e)
+    | .ok data' => (data', .data data')
+
+/-- The chemicals as the mass indexers see them: `group_compositions` are the weight compositions. -/
+def massChem (c : Chem) : Chem := { c with comps := c.wcomps }
+
+/-- `tuple(IDs)` of `chemicals.array` / `split`. -/
+def tupleKey : PyKey → PyKey
+  | .lst l => .tup l
+  | k => k
+
+/-- Result of `chemicals.array` / `split` given the resolution of the key. -/
+def arrayOut (c : Chem) (split : Bool) (r : Except Err Ix) (d : Data) : Out :=
+  match r with
+  | .error e => .err e
+  | .ok ix =>
+    match (if split then splitOf c.size ix d else arrayOf c.size ix d) with
+    | .ok row => .val (.vec row)
+    | .error e => .err e
+
+/-- Answer and new data of `by_mass()[key] = data`, given the key resolution. -/
+def massSet (c : Chem) (data : List Row) (v : MIx) (ids : HKey) (d : Data) : List Row × Out :=
+  let scaled := data.map (scaleRow c.mw)
+  match setM (massChem c) scaled v ids d with
+  | .error e => ((setMFail (massChem c) scaled v ids d).map (unscaleRow c.mw), .err e)
+  | .ok scaled' => (scaled'.map (unscaleRow c.mw), .data (scaled'.map (unscaleRow c.mw)))
 
 /-- One operation of a history. -/
 def World.step (w : World) : Op → World × Out
@@ -339,15 +441,47 @@ def World.step (w : World) : Op → World × Out
     | none => (w, .err .indexError)
     | some s =>
       match s.chem.setAlias reservedAll id a with
-      | .error e => (w, .err e)
+      | .error e =>
+        (w.redefine c { s with chem := s.chem.setAliasFail reservedAll id a }
+           (if s.chem.setAliasFail reservedAll id a = s.chem then false else true), .err e)
       | .ok chem' =>
         (w.redefine c { s with chem := chem' } (alookup a s.chem.index).isNone,
          .pos ((alookup a chem'.index).getD (.pos 0)))
-  | .group c name ids comp =>
+  | .array c split key d =>
     match w.chems[c]? with
     | none => (w, .err .indexError)
     | some s =>
-      match s.chem.defineGroup name ids comp with
+      match normC (tupleKey key) with
+      | .error e => (w, .err e)
+      | .ok k =>
+        match s.lookup k with
+        | (r, s') => ({ w with chems := w.chems.set c s' }, arrayOut s.chem split r d)
+  | .getMass i key =>
+    match w.ixs[i]? with
+    | none => (w, .err .indexError)
+    | some ix =>
+      match w.chems[ix.chem]? with
+      | none => (w, .err .indexError)
+      | some s =>
+        match resolveIx s (w.mcacheOf ix) ix.phases key with
+        | (.error e, s', mc') => (w.putCaches ix s' mc', .err e)
+        | (.ok (v, _), s', mc') => (w.putCaches ix s' mc', .val (getM (ix.data.map (scaleRow s.chem.mw)) v))
+  | .setMass i key d =>
+    match w.ixs[i]? with
+    | none => (w, .err .indexError)
+    | some ix =>
+      match w.chems[ix.chem]? with
+      | none => (w, .err .indexError)
+      | some s =>
+        match resolveIx s (w.mcacheOf ix) ix.phases key with
+        | (.error e, s', mc') => (w.putCaches ix s' mc', .err e)
+        | (.ok (v, ids), s', mc') =>
+          ((w.putCaches ix s' mc').setData i ix (massSet s.chem ix.data v ids d).1, (massSet s.chem ix.data v ids d).2)
+  | .group c name ids comp wt =>
+    match w.chems[c]? with
+    | none => (w, .err .indexError)
+    | some s =>
+      match s.chem.defineGroup reservedAll name ids comp wt with
       | .error e => (w, .err e)
       | .ok chem' =>
         (w.redefine c { s with chem := chem' } true, .pos ((alookup name chem'.index).getD (.pos 0)))
@@ -355,6 +489,10 @@ def World.step (w : World) : Op → World × Out
     match w.chems[c]? with
     | none => (w, .err .indexError)
     | some s => ({ w with ixs := w.ixs ++ [newChemIndexer c s.chem.size ph] }, .ok)
+  | .newSplitIx c =>
+    match w.chems[c]? with
+    | none => (w, .err .indexError)
+    | some s => ({ w with ixs := w.ixs ++ [{ newChemIndexer c s.chem.size 'l' with split := true }] }, .ok)
   | .newMatIx c ps =>
     match w.chems[c]?, phaseTuple ps with
     | some s, some pt => ({ w with ixs := w.ixs ++ [newMatIndexer c s.chem.size pt] }, .phases pt)
@@ -369,7 +507,7 @@ def World.step (w : World) : Op → World × Out
       | some s =>
         match resolveIx s (w.mcacheOf ix) ix.phases key with
         | (.error e, s', mc') => (w.putCaches ix s' mc', .err e)
-        | (.ok (v, _), s', mc') => (w.putCaches ix s' mc', .val (getM ix.data v))
+        | (.ok (v, _), s', mc') => (w.putCaches ix s' mc', .val (readIx ix v))
   | .set i key d =>
     match w.ixs[i]? with
     | none => (w, .err .indexError)
@@ -380,9 +518,7 @@ def World.step (w : World) : Op → World × Out
         match resolveIx s (w.mcacheOf ix) ix.phases key with
         | (.error e, s', mc') => (w.putCaches ix s' mc', .err e)
         | (.ok (v, ids), s', mc') =>
-          match setM s.chem ix.data v ids d with
-          | .error e => ((w.putCaches ix s' mc').setData i ix (setMFail ix.data v d), .err e)
-          | .ok data' => ((w.putCaches ix s' mc').setData i ix data', .data data')
+          ((w.putCaches ix s' mc').setData i ix (writeIx s.chem ix v ids d).1, (writeIx s.chem ix v ids d).2)
   | .copyLike l r => w.transfer l r false
   | .mixFrom l r => w.transfer l r true
 
@@ -411,23 +547,39 @@ def PWorld.setData (p : PWorld) (i : Nat) (ix : Indexer) (data : List Row) : PWo
 
 def PWorld.transfer (p : PWorld) (l r : Nat) (add : Bool) : PWorld × Out :=
   match p.ixs[l]?, p.ixs[r]? with
-  | some il, some ir =>
-    match p.chems[il.chem]?, p.chems[ir.chem]? with
+  | some il, some ir0 =>
+    match p.chems[il.chem]?, p.chems[ir0.chem]? with
     | some cl, some cr =>
-      if il.chem = ir.chem then
-        match transferSame cl.1.size il ir add (l == r) with
-        | some il' => (p.putIx l il', .state il')
-        | none => (p, .err .typeError)
-      else
-        match il.phases, ir.phases, il.data, ir.data with
-        | none, none, [rowL], [rowR] =>
-          let rix := nonzeroPositions rowR
-          match transferRow rowL rowR add rix (overlapPositions cl.1 (rix.map fun i => cr.2.getD i "")) with
-          | (row', some e) => (p.putIx l { il with data := [row'] }, .err e)
-          | (row', none) =>
-            (p.putIx l { il with data := [row'], phase := if add then il.phase else ir.phase },
-             .state { il with data := [row'], phase := if add then il.phase else ir.phase })
-        | _, _, _, _ => (p, .err .typeError)
+      match flatSource il ir0 add with
+      | none => (p, .err .typeError)
+      | some ir =>
+        if il.chem = ir.chem then
+          match transferSame cl.1.size il ir add (l == r) with
+          | some il' => (p.putIx l il', .state il')
+          | none => (p, .err .typeError)
+        else
+          match il.phases with
+          | none =>
+            match ir.phases, il.data, ir.data with
+            | none, [rowL], [rowR] =>
+              let rix := nonzeroPositions rowR
+              match transferRow rowL rowR add rix (overlapPositions cl.1 (rix.map fun i => cr.2.getD i "")) with
+              | (row', some e) => (p.putIx l { il with data := [row'] }, .err e)
+              | (row', none) =>
+                (p.putIx l { il with data := [row'], phase := if add then il.phase else ir.phase },
+                 .state { il with data := [row'], phase := if add then il.phase else ir.phase })
+            | _, _, _ => (p, .err .typeError)
+          | some _ =>
+            let rix := unionNonzero ir.data
+            match overlapPositions cl.1 (rix.map fun i => cr.2.getD i "") with
+            | .error e =>
+              match growOnly cl.1.size il ir add with
+              | some il' => (p.putIx l il', .err e)
+              | none => (p, .err e)
+            | .ok lix =>
+              match transferSame cl.1.size il (mapIndexer cl.1.size lix rix ir) add false with
+              | some il' => (p.putIx l il', .state il')
+              | none => (p, .err .typeError)
     | _, _ => (p, .err .indexError)
   | _, _ => (p, .err .indexError)
 
@@ -442,19 +594,50 @@ def PWorld.step (p : PWorld) : Op → PWorld × Out
     | none => (p, .err .indexError)
     | some (chem, cas) =>
       match chem.setAlias reservedAll id a with
-      | .error e => (p, .err e)
+      | .error e => ({ p with chems := p.chems.set c (chem.setAliasFail reservedAll id a, cas) }, .err e)
       | .ok chem' => ({ p with chems := p.chems.set c (chem', cas) }, .pos ((alookup a chem'.index).getD (.pos 0)))
-  | .group c name ids comp =>
+  | .array c split key d =>
+    match p.chems[c]? with
+    | none => (p, .err .indexError)
+    | some (chem, _) =>
+      match normC (tupleKey key) with
+      | .error e => (p, .err e)
+      | .ok k => (p, arrayOut chem split (resolveC chem k) d)
+  | .getMass i key =>
+    match p.ixs[i]? with
+    | none => (p, .err .indexError)
+    | some ix =>
+      match p.chems[ix.chem]? with
+      | none => (p, .err .indexError)
+      | some (chem, _) =>
+        match resolveIxP chem ix.phases key with
+        | .error e => (p, .err e)
+        | .ok (v, _) => (p, .val (getM (ix.data.map (scaleRow chem.mw)) v))
+  | .setMass i key d =>
+    match p.ixs[i]? with
+    | none => (p, .err .indexError)
+    | some ix =>
+      match p.chems[ix.chem]? with
+      | none => (p, .err .indexError)
+      | some (chem, _) =>
+        match resolveIxP chem ix.phases key with
+        | .error e => (p, .err e)
+        | .ok (v, ids) => (p.setData i ix (massSet chem ix.data v ids d).1, (massSet chem ix.data v ids d).2)
+  | .group c name ids comp wt =>
     match p.chems[c]? with
     | none => (p, .err .indexError)
     | some (chem, cas) =>
-      match chem.defineGroup name ids comp with
+      match chem.defineGroup reservedAll name ids comp wt with
       | .error e => (p, .err e)
       | .ok chem' => ({ p with chems := p.chems.set c (chem', cas) }, .pos ((alookup name chem'.index).getD (.pos 0)))
   | .newChemIx c ph =>
     match p.chems[c]? with
     | none => (p, .err .indexError)
     | some (chem, _) => ({ p with ixs := p.ixs ++ [newChemIndexer c chem.size ph] }, .ok)
+  | .newSplitIx c =>
+    match p.chems[c]? with
+    | none => (p, .err .indexError)
+    | some (chem, _) => ({ p with ixs := p.ixs ++ [{ newChemIndexer c chem.size 'l' with split := true }] }, .ok)
   | .newMatIx c ps =>
     match p.chems[c]?, phaseTuple ps with
     | some (chem, _), some pt => ({ p with ixs := p.ixs ++ [newMatIndexer c chem.size pt] }, .phases pt)
@@ -469,7 +652,7 @@ def PWorld.step (p : PWorld) : Op → PWorld × Out
       | some (chem, _) =>
         match resolveIxP chem ix.phases key with
         | .error e => (p, .err e)
-        | .ok (v, _) => (p, .val (getM ix.data v))
+        | .ok (v, _) => (p, .val (readIx ix v))
   | .set i key d =>
     match p.ixs[i]? with
     | none => (p, .err .indexError)
@@ -479,10 +662,7 @@ def PWorld.step (p : PWorld) : Op → PWorld × Out
       | some (chem, _) =>
         match resolveIxP chem ix.phases key with
         | .error e => (p, .err e)
-        | .ok (v, ids) =>
-          match setM chem ix.data v ids d with
-          | .error e => (p.setData i ix (setMFail ix.data v d), .err e)
-          | .ok data' => (p.setData i ix data', .data data')
+        | .ok (v, ids) => (p.setData i ix (writeIx chem ix v ids d).1, (writeIx chem ix v ids d).2)
   | .copyLike l r => p.transfer l r false
   | .mixFrom l r => p.transfer l r true
 
